@@ -5,7 +5,8 @@ replayed and compared step by step with a fresh twin)."""
 import random
 
 from .. import eworld
-from ..dworld import DWorld, gen_filter, FEATURE_TYPES, LEVELS, BUILDERS, observe_dispatcher, make_observer
+from ..dworld import DWorld, gen_filter, FEATURE_TYPES, LEVELS, BUILDERS, make_observer
+from ..dworld import observe_dispatcher as _observe_dispatcher
 from ..instances import gen_instance, n_ops
 from ..util import stream, cjson, h64
 from ..core import short_exc
@@ -27,6 +28,14 @@ STUB = []
 ASSUMPTIONS = ["both twins run the same library code, so a wrong-but-deterministic feature value cancels out (C11 owns values); only staleness shows",
                "multi env: the generator draws from the global RNG (seed=None), whose state is set equal before the compared resets"]
 STATE_MEASURE = "distinct (instance hash, tracking vectors at the reset point) tuples"
+
+
+def observe_dispatcher(d):
+    """Everything visible, including what the dispatcher answers when asked."""
+    out = _observe_dispatcher(d)
+    out["queries"] = {"available": [o.operation_id for o in d.available_operations()], "now": d.current_time(),
+                      "completed": sorted(o.operation_id for o in d.completed_operations())}
+    return out
 
 
 def gen_observer_set(rng):
@@ -74,14 +83,33 @@ def generate(seed, tier):
     spec = gen_instance(rng, sparse_ids=0.03, max_jobs=4, max_machines=4, max_ops=4, positive=True if names else None)
     n = n_ops(spec)
     mk = lambda k: [["dispatch", rng.randrange(64), rng.randrange(64), int(rng.random() < 0.5)] for _ in range(k)]  # noqa: E731
-    return {"prop": PROP, "kind": "dispatch", "cfg": {"instance": spec, "filter": names, "filter_style": style, "observers": gen_observer_set(rng)},
+    cfg = {"instance": spec, "filter": names, "filter_style": style, "observers": gen_observer_set(rng)}
+    if rng.random() < 0.15:
+        # world A starts with another filter, is looked at, and gets the configured filter assigned through the
+        # public attribute before its first reset; from that reset on it must equal the twin built with it
+        cfg["first_filter"] = rng.choice([[], ["non_idle_machines"], ["dominated_operations"], ["non_immediate_operations"]])
+    return {"prop": PROP, "kind": "dispatch", "cfg": cfg,
             "h1": mk(n if rng.random() < 0.5 else rng.randint(1, n)), "h2": mk(n if rng.random() < 0.6 else rng.randint(1, n))}
 
 
-def build_world(cfg, ctx, with_late):
+def build_world(cfg, ctx, with_late, first_filter=None):
     c = dict(cfg, observers=[o for o in cfg["observers"] if with_late or not o.get("late")])
+    if first_filter is not None:
+        c = dict(c, filter=first_filter, filter_style="callable")
     w = DWorld(c, ctx)
-    return w if len(w.observers) == len(c["observers"]) else None
+    if len(w.observers) != len(c["observers"]):
+        return None
+    if first_filter is not None:
+        from ..dworld import make_filter
+        from ..model import Model
+
+        w.disp.available_operations()
+        w.disp.current_time()
+        w.disp.ready_operations_filter = make_filter(cfg["filter"], cfg.get("filter_style", "callable"))
+        w.filter_names = list(cfg["filter"])
+        w.model = Model(w.jobs, w.filter_names)
+        ctx.probe("filter_replaced_before_first_reset")
+    return w
 
 
 def execute_dispatch(case, ctx):
@@ -89,7 +117,7 @@ def execute_dispatch(case, ctx):
     late = [o for o in cfg["observers"] if o.get("late")]
     # fresh twin B: everything created at the start, in the configured order
     b = build_world(cfg, ctx, with_late=True)
-    a = build_world(cfg, ctx, with_late=not late)
+    a = build_world(cfg, ctx, with_late=not late, first_filter=cfg.get("first_filter"))
     if a is None or b is None:
         return
     trace_b = [observe_dispatcher(b.disp)]
